@@ -40,7 +40,7 @@ func runC11(r *Run) {
 	c.Backlog = 10
 	c.DebugLog = t.Chance(25, "debug-logger")
 	// waiters arrive 1 ms apart; timeout chosen so that some expire during the run
-	c.Timeout = []time.Duration{time.Hour, 4 * ms, 6 * ms, 9 * ms}[t.Intn(4, "timeout")]
+	c.Timeout = []time.Duration{time.Hour, 4 * ms, 6 * ms, 9 * ms, -1}[t.Intn(5, "timeout")] // negative: no backlog timeout (queue kinds; the pools clamp it to the default)
 	switch ctor {
 	case 0:
 		c.Kind, c.Ordering = "queue", "fifo"
@@ -128,16 +128,17 @@ func runC11(r *Run) {
 		held = append(held, l)
 	}
 	type waiter struct {
-		tk        *Task
-		arrived   int64
-		returned  bool
-		granted   bool
-		retT      int64
-		l         core.Listener
-		cancelled bool
-		barger    bool
-		started   bool
-		goFlag    bool
+		tk           *Task
+		arrived      int64
+		returned     bool
+		granted      bool
+		retT         int64
+		l            core.Listener
+		cancelled    bool
+		barger       bool
+		started      bool
+		goFlag       bool
+		preCancelled bool
 	}
 	ws := make([]*waiter, nW+nBarge)
 	var sharedCtx context.Context
@@ -158,6 +159,11 @@ func runC11(r *Run) {
 	for i := 0; i < nW; i++ {
 		i := i
 		w := &waiter{}
+		// with eviction of done contexts enabled, a caller may arrive already cancelled: it is refused at once and must
+		// leave nothing behind in the backlog
+		if c.Evict && sharedCtx == nil && i > 0 && t.Chance(15, "arrives-cancelled") {
+			w.preCancelled, w.cancelled = true, true
+		}
 		ws[i] = w
 		w.tk = s.Go("waiter", func(tk *Task) {
 			// arrival order: waiter i arrives one gap after waiter i-1 is asleep in the backlog
@@ -166,6 +172,9 @@ func runC11(r *Run) {
 					return
 				}
 				tk.Sleep(gap)
+			}
+			if w.preCancelled {
+				tk.Cancel() // arrives with a context that is already done
 			}
 			tk.Begin("acquire", i)
 			w.started = true
@@ -198,8 +207,11 @@ func runC11(r *Run) {
 		w.tk.daemon = true
 	}
 	effTimeout := c.Timeout
-	if effTimeout == 0 {
+	if effTimeout == 0 || (effTimeout < 0 && (c.Kind == "pool" || c.Kind == "fixedpool")) {
 		effTimeout = time.Second
+	}
+	if effTimeout < 0 {
+		effTimeout = 1000 * time.Hour // no timeout
 	}
 	// reference backlog: still blocked, not cancelled (when eviction is on), not expired; in arrival order
 	waiting := func(now int64) []int {
